@@ -33,7 +33,7 @@ func init() {
 		Modes: []Mode{{Name: "matrix", Weight: 3}, {Name: "closerace", Weight: 4}, {Name: "churn", Weight: 3}},
 		Gen:   genC17, Run: runC17, Enum: enumC17,
 		QuickRuns: 1000, ThoroughRuns: 72000,
-		Rule: "matrix: every request of {GET,POST,PUT,DELETE,OPTIONS,HEAD} x EIO{absent,3,4,5,junk} x transport{absent,polling,websocket,junk} x sid{absent,unknown,live,closed} x {b64} x {j} = 1920 per world (exhaustive), worlds differ by stall seed and network; " +
+		Rule: "[the closed session of the matrix ended, per plan, by Socket.Close on the server, by a CLOSE packet of the peer, or by a malformed POST (transport error)] matrix: every request of {GET,POST,PUT,DELETE,OPTIONS,HEAD} x EIO{absent,3,4,5,junk} x transport{absent,polling,websocket,junk} x sid{absent,unknown,live,closed} x {b64} x {j} = 1920 per world (exhaustive), worlds differ by stall seed and network; " +
 			"closerace: 2..12 handshakes (polling/websocket) at drawn instants around Server.Close; churn: 3..6 tasks opening, closing and probing sessions; non-trivial = matrix completed / a handshake overlapped Close / >= 10 store operations; distinct = distinct history digest",
 		Assumptions: []string{
 			"a request with several defects may be answered with the code of any of them (the protocol fixes no precedence)",
